@@ -100,6 +100,9 @@ def build():
     p.log_calls.update({"self._print", "self.print_progress"})
 
     GHOST = dict(INPUTLEN=INT, TAKEN=INT, QLO=INT, DROPPED=BOOL, LIMIT=INT, DONE=BOOL)
+    # IN_CALLBACK (ghost): dispatch_one_batch runs in a completion-callback thread of the backend (via dispatch_next) rather than in the
+    # thread that called Parallel; an exception escaping there never reaches the caller (known finding K16)
+    D1B_GHOST = dict(GHOST, IN_CALLBACK=BOOL)
 
     def G(interp, name):
         return ops.as_int_term(interp.ctx.ghost[name])
@@ -216,11 +219,13 @@ def build():
             limit = z3.If(G(interp, "LIMIT") < total, G(interp, "LIMIT"), total)
         avail = z3.If(limit - taken < 0, z3.IntVal(0), limit - taken)
         k = z3.Int(ctx.fresh_name("pulled"))
-        if ctx.choose(2, "iterator-raises") == 1:
+        how = ctx.choose(3, "iterator-raises") if "IN_CALLBACK" in ctx.ghost else ctx.choose(2, "iterator-raises")
+        if how >= 1:
             # the items consumed before the exception are lost with the half-built list: TAKEN counts retained items only
             ctx.assume(z3.And(0 <= k, k <= avail, k <= n))
             ctx.events.append(("pull", Sym(INT, k), "raised"))
-            interp.raise_("ValueError")
+            # an input iterable may raise anything, also a BaseException that is not an Exception (KeyboardInterrupt, SystemExit)
+            interp.raise_("ValueError" if how == 1 else "KeyboardInterrupt")
         ctx.assume(k == z3.If(n < avail, n, avail))
         ctx.assume(n >= 0)
         if "DONE" in ctx.ghost:
@@ -314,7 +319,7 @@ def build():
             env.assign("iterator", env.lookup("self").fields["_original_iterator"])
 
     p.add(Contract(
-        PAR, "Parallel.dispatch_one_batch", props=["C01", "C09", "C04"], ghost=GHOST, setup=d1b_setup,
+        PAR, "Parallel.dispatch_one_batch", props=["C01", "C09", "C04"], ghost=D1B_GHOST, setup=d1b_setup,
         inline={"_get_batch_size"},
         params=dict(self=parallel(), iterator=iterator_arg),
         requires=["lock_depth() == 0", "self.batch_size >= 1 and self._cached_effective_n_jobs >= 2"],
@@ -338,6 +343,8 @@ def build():
             "iterator_failure_is_registered": "implies(n_events('register_outcome') == 1, result and ev_named('register_outcome')[0][2] == 'Error' and n_events('register_new_job') == 1 "
                                               "and isinstance(ev_named('register_outcome')[0][3], ValueError))",
         },
+        exsures={"KeyboardInterrupt": {"the_lock_is_released": "lock_depth() == 0",
+                                       "never_escapes_into_a_callback_thread": "not IN_CALLBACK"}},
         loops={1: Loop(
             "for i in range(0, len(islice), final_batch_size)",
             invariant={
